@@ -31,6 +31,13 @@ func checkVersionsOn(what string, t *iavl.MutableTree, m *Model, probe []byte) *
 		}
 		return v
 	}
+	// the version the working tree is based on and the number the next commit will get
+	if got := t.Version(); got != m.Cur {
+		return viol("versions", "%s: Version() = %d, the working tree is based on version %d", what, got, m.Cur)
+	}
+	if got := t.WorkingVersion(); got != m.WorkingVersion() {
+		return viol("versions", "%s: WorkingVersion() = %d, the next commit is version %d", what, got, m.WorkingVersion())
+	}
 	lv, err := t.GetLatestVersion()
 	if err != nil || lv != m.Latest {
 		return viol("versions", "%s: GetLatestVersion() = (%d,%v), model %d", what, lv, err, m.Latest)
